@@ -195,6 +195,13 @@ func vC03ReplaceAPI(r *vRand, pool []vKeyPair) {
 			panic(err)
 		}
 		verify := store.VerifyPeerCertificate() // obtained once, as the tls.Config does
+		// the slice the store was built from stays the caller's: another store built from it (a second server
+		// configured with the same list) and the slice itself are not touched by what happens to this store
+		firstCopy := append([]ed25519.PublicKey(nil), first...)
+		bystander, err := credentials.ValidPublicKeysFromEd25519(first...)
+		if err != nil {
+			panic(err)
+		}
 		var hist []string
 		fail, detail := "", ""
 		steps := 1 + r.Intn(3)
@@ -229,6 +236,24 @@ func vC03ReplaceAPI(r *vRand, pool []vKeyPair) {
 					fail = "allow-list-replace-not-effective/" + strings.TrimLeft(kind, "0123456789 ")
 					detail = fmt.Sprintf("after Replace(%s): pool key %d listed=%v Contains=%v verifier-accepts=%v", kind, pi, want, got, gotV)
 					break
+				}
+			}
+			for j := range firstCopy {
+				if fail == "" && (j >= len(first) || string(first[j]) != string(firstCopy[j])) {
+					fail = "allow-list-update-wrote-into-the-callers-slice"
+					detail = fmt.Sprintf("after Replace(%s): entry %d of the slice the store was built from has changed", kind, j)
+				}
+			}
+			for pi, kp := range pool {
+				want := false
+				for _, k := range firstCopy {
+					if string(k) == string(kp.Pub) {
+						want = true
+					}
+				}
+				if got := bystander.Contains(kp.Pub); got != want && fail == "" {
+					fail = "allow-list-update-changed-another-store"
+					detail = fmt.Sprintf("after Replace(%s) on one store: pool key %d listed=%v in a store built from the same slice, Contains=%v", kind, pi, want, got)
 				}
 			}
 			if len(store.Keys()) != len(next) && fail == "" {
@@ -325,6 +350,38 @@ func vC03CurrentList(r *vRand, pool []vKeyPair) {
 					} else if again, _, _ := vC03Session(addr, vClientTLS(good, skey.Pub), 3*time.Second); !again {
 						c.Fail = "auth-e2e/listed-peer-refused"
 					}
+				}
+			}
+			vEmit(c)
+			vStop(s, 5*time.Second)
+		}
+		// ---- an update which names a key twice: the list is what the update says, the other key is off it
+		{
+			s, impl, addr := start()
+			c := vCase{Class: "e2e/" + entry + "/update-with-duplicates", Sig: entry + "dup"}
+			info := map[string]interface{}{}
+			c.Info = info
+			before, _, derr := vC03Session(addr, vClientTLS(other, skey.Pub), 3*time.Second)
+			vWaitUntil(3*time.Second, func() bool { return s.OpenConnections() == 0 })
+			impl.take()
+			uerr := s.UpdatePublicKeys(good.Pub, good.Pub)
+			switch {
+			case !before:
+				c.Fail = "auth-e2e/listed-peer-refused"
+				info["dial_err"] = fmt.Sprint(derr)
+			case uerr != nil:
+				c.Fail = "auth-e2e/update-refused"
+				info["update_err"] = uerr.Error()
+			default:
+				servedOther, _, _ := vC03Session(addr, vClientTLS(other, skey.Pub), 700*time.Millisecond)
+				vWaitUntil(2*time.Second, func() bool { return s.OpenConnections() == 0 })
+				handled := len(impl.take())
+				servedGood, _, _ := vC03Session(addr, vClientTLS(good, skey.Pub), 3*time.Second)
+				info["outcome"] = fmt.Sprintf("after UpdatePublicKeys(k, k): the other key served=%v handled=%d, k served=%v", servedOther, handled, servedGood)
+				if servedOther || handled > 0 {
+					c.Fail = "auth-e2e/served-although-taken-off-the-list"
+				} else if !servedGood {
+					c.Fail = "auth-e2e/listed-peer-refused"
 				}
 			}
 			vEmit(c)
